@@ -8,7 +8,7 @@ from __future__ import annotations
 
 import ast
 
-from ..core import Rule, AnalysisError, C_LIB, C_EXT
+from ..core import Rule, AnalysisError, C_LIB, C_EXT, norm
 from .. import cfront, clib, cfg as _cfg, pyfront
 from . import c06, c02
 
@@ -217,9 +217,46 @@ def r4_reader_all_directories(repo=None):
     return r
 
 
+def r5_bounds_merge(repo=None):
+    r = Rule("C11.R5", "bounds over several top-level directories: the minimum and the maximum are merged independently")
+    m = pyfront.mod("digital_rf_hdf5", repo)
+    q = "DigitalRFReader.get_bounds"
+    g = m.cfg(q)
+    lo = [n for n in g.nodes if n.kind == "cond" and isinstance(n.ast, ast.Compare) and norm(ast.unparse(n.ast)) in (
+        "this_first_sample < first_unix_sample", "first_unix_sample > this_first_sample")]
+    hi = [n for n in g.nodes if n.kind == "cond" and isinstance(n.ast, ast.Compare) and norm(ast.unparse(n.ast)) in (
+        "this_last_sample > last_unix_sample", "last_unix_sample < this_last_sample")]
+    if len(lo) != 1 or len(hi) != 1:
+        r.violation(m.rel, q, "merge comparisons: %d lower, %d upper" % (len(lo), len(hi)), "the per-directory bounds are not merged "
+                    "with one `<` test for the first sample and one `>` test for the last sample", line=m.fn(q).lineno)
+        return r
+    a, b = lo[0], hi[0]
+    first, second = (a, b) if b.id in g.reach([a.id], skip_labels=("back", "exc")) else (b, a)
+    ok = True
+    for lab in ("T", "F"):
+        st = [x for x, l in g.succ[first.id] if l == lab]
+        if second.id not in g.reach(st, skip_labels=("back", "exc")):
+            ok = False
+            r.violation(m.rel, q, "`%s` is skipped when `%s` is %s" % (second.label, first.label, "true" if lab == "T" else "false"),
+                        "the two merges are mutually exclusive: a directory that extends the start of the channel can no longer also "
+                        "extend its end (or vice versa), so the reported bounds miss data of a later session", line=second.line)
+    for n, tgt, src in ((a, "first_unix_sample", "this_first_sample"), (b, "last_unix_sample", "this_last_sample")):
+        ts = [x for x, l in g.succ[n.id] if l == "T"]
+        st = [x for x in g.nodes if isinstance(x.ast, ast.Assign) and norm(ast.unparse(x.ast)) == "%s = %s" % (tgt, src)
+              and x.id in g.reach(ts, skip_labels=("back", "exc"))]
+        if not st:
+            ok = False
+            r.violation(m.rel, q, "`%s` does not assign %s = %s" % (n.label, tgt, src), "merge branch does not update the bound", line=n.line)
+    if ok:
+        r.ok("%s:%s %s" % (m.rel, a.line, q), "`%s` and `%s` are both evaluated for every further directory, each updating its own bound" % (
+            a.label, b.label))
+    r.guard(1)
+    return r
+
+
 def rules(repo=None):
     return [lambda: r1_compare_all(repo), lambda: r2_refused_session_no_effect(repo), lambda: r3_never_replace(repo),
-            lambda: r4_reader_all_directories(repo)]
+            lambda: r4_reader_all_directories(repo), lambda: r5_bounds_merge(repo)]
 
 
 EXPLANATION = (
@@ -228,6 +265,7 @@ EXPLANATION = (
     "to an exception. R2: the verify branch of digital_rf_handle_metadata and every path of the C and Python constructors "
     "before the comparison contain no persistent effect. R3: access(final name) dominates the H5F_ACC_EXCL create and its "
     "refusal returns an error without touching has_failure. R4: read/get_continuous_blocks/get_bounds iterate over the "
-    "whole top-level directory list with no early exit. Does NOT decide union/bounds arithmetic across sessions.")
+    "whole top-level directory list with no early exit. R5: get_bounds merges the first and the last sample of each directory with two "
+    "independent comparisons. Does NOT decide union/bounds arithmetic across sessions.")
 ASSUMPTIONS = ["H5F_ACC_EXCL fails on an existing file", "the same file period is never recorded in two directories (format rule)"]
 FILES = [C_LIB, C_EXT, "python/digital_rf/digital_rf_hdf5.py"]
